@@ -339,8 +339,52 @@ def _mask_ok(mask: ast.AST, lossp: str, kind: str):
     f = RF.atom("RATIO") if kind == "ratio" else RF.atom("U")
     want = RF.atom("MIN") + (RF.atom("MAX") - RF.atom("MIN")) * f
     if rf == want:
+        # floating-point exactness at a plateau: when all losses are equal (max == min) the documented threshold is that value
+        # exactly (x - x = 0, 0 * r = 0, c + 0 = c are exact), so no point is below it; an algebraically equal form that rounds
+        # (convex combination) can exceed it and replace every point
+        ex = _plateau_exact(r, atom)
+        if ex is not True:
+            return False, f"threshold `{dump(r)[:80]}` is algebraically the documented one but not exact when max == min ({ex}): at a plateau of equal losses it can round above the common value"
         return True, f"loss < {rf!r}"
     return False, f"threshold = {rf!r}, expected {want!r}"
+
+
+def _plateau_exact(e: ast.AST, atom):
+    """IEEE-exact evaluation of the threshold under max == min: returns True when the result is exactly the common value,
+    else a description.  Values: 'M' (the common loss), 0, or ('?', text) for a rounded / unknown quantity."""
+    def ev(n):
+        a = atom(n)
+        if a is not None:
+            r = repr(a)
+            if r in ("MAX", "MIN"):
+                return "M"
+            return ("?", r)
+        if isinstance(n, ast.Constant) and isinstance(n.value, (int, float)):
+            return 0 if n.value == 0 else ("?", repr(n.value))
+        if isinstance(n, ast.BinOp):
+            x, y = ev(n.left), ev(n.right)
+            if isinstance(n.op, ast.Sub):
+                if x == "M" and y == "M":
+                    return 0
+                if y == 0:
+                    return x
+            if isinstance(n.op, ast.Add):
+                if x == 0:
+                    return y
+                if y == 0:
+                    return x
+            if isinstance(n.op, ast.Mult):
+                if x == 0 or y == 0:
+                    return 0
+            if isinstance(n.op, ast.Div) and x == 0:
+                return 0
+            return ("?", dump(n)[:50])
+        if isinstance(n, ast.UnaryOp) and isinstance(n.op, ast.USub):
+            x = ev(n.operand)
+            return 0 if x == 0 else ("?", dump(n)[:50])
+        return ("?", dump(n)[:50])
+    v = ev(e)
+    return True if v == "M" else (f"evaluates to a rounded quantity {v[1]}" if isinstance(v, tuple) else f"evaluates to {v}")
 
 
 def _sym(t):
